@@ -648,7 +648,10 @@ func (w *c01World) execWrite(op *simrt.Op) *simrt.Violation {
 			if child.Len() == 0 && pst.Len() > 0 {
 				ctx.Probe("remove_to_empty")
 			}
-			return w.commitState(root, child, "mavldb.DelKVPair")
+			if v := w.commitState(root, child, "mavldb.DelKVPair"); v != nil {
+				return v
+			}
+			return w.checkTouched(root, child, keys)
 		}
 		// tree-level mixed batch: Set and Remove interleaved on one tree, then Save
 		child := pst.Clone()
@@ -693,7 +696,14 @@ func (w *c01World) execWrite(op *simrt.Op) *simrt.Violation {
 		if child.Len() == 0 && pst.Len() > 0 {
 			ctx.Probe("remove_to_empty")
 		}
-		return w.commitState(root, child, "tree.Set/Remove/Save")
+		if v := w.commitState(root, child, "tree.Set/Remove/Save"); v != nil {
+			return v
+		}
+		var touched [][]byte
+		for i := range op.Sub {
+			touched = append(touched, op.Sub[i].B(0))
+		}
+		return w.checkTouched(root, child, touched)
 
 	case "reopen":
 		ctx.Fault("close_reopen")
@@ -709,6 +719,18 @@ func (w *c01World) execWrite(op *simrt.Op) *simrt.Violation {
 		return w.afterRestart("crash")
 	}
 	return nil
+}
+
+// checkTouched reads every key a removal batch touched at the new root: removed
+// keys must be gone (by every point-read API), the others present.
+func (w *c01World) checkTouched(root []byte, st *State, keys [][]byte) *simrt.Violation {
+	if !w.checks || len(keys) == 0 {
+		return nil
+	}
+	if v := CheckGet(w.ctx, w.n, root, st, keys, APIStoreGet, "post-remove"); v != nil {
+		return v
+	}
+	return CheckGet(w.ctx, w.n, root, st, keys, APITreeGet, "post-remove")
 }
 
 // probeBatch counts the batch shapes that force rebalancing.
